@@ -44,13 +44,17 @@ def project (σ : State) (terminated : Bool) : SpecObs := ⟨terminated, σ.lock
 def specEnvVar (_env : List (String × String)) (_name : String) : Option String := none
 def specAvailEnvVars (_env : List (String × String)) : List String := []
 
+/-- the four kinds of entity declaration of XML 1.0 §4.2 (general internal, parameter,
+external parsed, unparsed) -/
+def isEntityDecl : Decl → Bool
+  | .entity .. | .paramEntity .. | .extEntity .. | .unparsed .. => true
+  | _ => false
+
 /-- default settings: a document that declares an entity (general, parameter, external,
 unparsed) must be rejected; about other documents the property says nothing -/
 def mustReject (d : Doc) : Bool :=
   match d.doctype with
-  | some (_, decls) => decls.any fun
-      | .entity .. | .paramEntity .. | .extEntity .. | .unparsed .. => true
-      | _ => false
+  | some (_, decls) => decls.any isEntityDecl
   | none => false
 
 /-- thread specification: the multiset of per-thread outcome lists equals the sequential one and
